@@ -102,10 +102,24 @@ Section PyNum.
       if Z.odd (f_floorZ O iw) then f_neg O r else r
     else f_pow O iv iw.
 
+  (* int ** non-negative int, by squaring (Z.pow iterates linearly in the exponent) *)
+  Fixpoint pow_pos_sq (a : Z) (p : positive) : Z :=
+    match p with
+    | xH => a
+    | xO q => let r := pow_pos_sq a q in (r * r)%Z
+    | xI q => let r := pow_pos_sq a q in (a * (r * r))%Z
+    end.
+  Definition int_pow (a b : Z) : Z :=
+    match b with
+    | Z0 => 1%Z
+    | Zpos p => pow_pos_sq a p
+    | Zneg _ => 0%Z
+    end.
+
   Definition py_pow (x y : num) : num :=
     match x, y with
     | PInt a, PInt b =>
-        if Z.leb 0 b then PInt (Z.pow a b)
+        if Z.leb 0 b then PInt (int_pow a b)
         else PFloat (float_pow (f_ofZ O a) (f_ofZ O b))
     | _, _ => PFloat (float_pow (to_f x) (to_f y))
     end.
